@@ -591,6 +591,16 @@ func (ex *Exec) applyContract(fr *Frame, st *State, fn *ssa.Function, ct *Contra
 	}
 	// results
 	res := ex.havocResults(st, sig.Results(), ct.Name)
+	if ct.Opts["freshresult"] != "" && sig.Results().Len() == 1 {
+		// ASSUMED by the contract: the (single, map-typed) result is a newly made map
+		if _, isMap := sig.Results().At(0).Type().Underlying().(*types.Map); isMap {
+			if t, isT := res.(Term); isT {
+				al := ex.allocSet(st)
+				ex.assume(st, sAnd(sx(">", t.S, "0"), sNot(sx("select", al, t.S))))
+				st.ghost["$alloc"] = ex.vc.define("alloc", "(Array Int Bool)", sx("store", al, t.S, "true"))
+			}
+		}
+	}
 	post := ex.contractEnv(st, old, fn, ct, names, args)
 	bindResults(post, sig, res)
 	for _, u := range ct.Unfold {
